@@ -41,6 +41,10 @@ Lemma add128_some a b c : add128 a b = Some c -> c = a + b /\ a + b <= u128_max.
 Proof. unfold add128. destruct (a + b <=? u128_max) eqn:E; intros H; inversion H. split; [reflexivity | lia]. Qed.
 Lemma add64_some a b c : add64 a b = Some c -> c = a + b /\ a + b <= u64_max.
 Proof. unfold add64. destruct (a + b <=? u64_max) eqn:E; intros H; inversion H. split; [reflexivity | lia]. Qed.
+Lemma deadline_some a b c : deadline a b = Some c -> c = a + b /\ a + b <= u64_max.
+Proof. unfold deadline. destruct ((a + b) * 1000000000 <=? u64_max) eqn:E; intros H; inversion H. split; [reflexivity | unfold u64_max in *; lia]. Qed.
+Lemma deadline_fits a b c : deadline a b = Some c -> c * 1000000000 <= u64_max.
+Proof. unfold deadline. destruct ((a + b) * 1000000000 <=? u64_max) eqn:E; intros H; inversion H. lia. Qed.
 Lemma sub_checked_some a b c : sub_checked a b = Some c -> c = a - b /\ b <= a.
 Proof. unfold sub_checked. destruct (b <=? a) eqn:E; intros H; inversion H. split; [reflexivity | lia]. Qed.
 Lemma mul_ratio_some a n d q : mul_ratio a n d = Some q -> d <> 0 /\ q = a * n / d /\ q <= u128_max.
